@@ -602,6 +602,219 @@ def notes_probes(ctx):
 
 
 # --------------------------------------------------------------------------
+# the receiving side through the REAL LocalBackend, polling a growing std.out
+# --------------------------------------------------------------------------
+TRIAL_SCRIPT = r"""
+import io, json, os, sys, time
+from contextlib import redirect_stdout
+from syne_tune import Reporter
+
+args = dict(zip(sys.argv[1::2], sys.argv[2::2]))
+sync_dir = args["--sync_dir"]
+plan = json.load(open(args["--plan"]))
+
+def wait_for(name):
+    path = os.path.join(sync_dir, name)
+    t0 = time.time()
+    while not os.path.exists(path):
+        if time.time() - t0 > 120:
+            sys.exit(3)
+        time.sleep(0.01)
+
+def signal(name):
+    open(os.path.join(sync_dir, name), "w").close()
+
+TAGPRE = "[tune-metric]: "
+report = Reporter()
+for i, step in enumerate(plan):
+    if step["op"] == "noise":
+        os.write(1, step["text"].encode())
+    elif step["op"] == "report":
+        report(**step["kw"])
+    else:
+        buf = io.StringIO()
+        with redirect_stdout(buf):
+            report(**step["kw"])
+        line = buf.getvalue()
+        mode = step["cut"]
+        if mode == "in_tag":
+            cut = 6
+        elif mode == "before_brace":
+            cut = len(TAGPRE)
+        elif mode == "after_brace":
+            cut = len(TAGPRE) + 1
+        elif mode == "after_nested":
+            cut = line.index("}", len(TAGPRE)) + 1
+        elif mode == "before_nl":
+            cut = len(line) - 1
+        else:
+            cut = len(line) // 2
+        os.write(1, line[:cut].encode())
+        signal("half_%d" % i)
+        wait_for("cont_%d" % i)
+        os.write(1, line[cut:].encode())
+signal("all_written")
+wait_for("finish")
+"""
+
+CUT_MODES = ["in_tag", "before_brace", "after_brace", "mid", "before_nl", "after_nested"]
+
+
+def gen_backend_plans(rng):
+    """a handful of trials; every trial writes complete reports, other output, and reports whose line reaches
+    std.out in two pieces with a poll in between"""
+    plans = []
+    for t, modes in enumerate([["mid", "after_nested"], ["in_tag", "before_nl"], ["before_brace", "after_brace"],
+                               [rng.choice(CUT_MODES), rng.choice(CUT_MODES)]]):
+        steps, ep = [], 0
+        for mode in modes:
+            for _ in range(rng.randint(0, 2)):
+                ep += 1
+                steps.append(dict(op="report", kw=dict(epoch=ep, loss=rng.randint(1, 99) / 128)))
+            if rng.random() < 0.5:
+                steps.append(dict(op="noise", text=rng.choice(["progress 50%", "x } y\n", "[tune-metri", "{\n"])))
+            ep += 1
+            kw = dict(epoch=ep, loss=rng.randint(1, 99) / 128)
+            if mode == "after_nested" or rng.random() < 0.5:
+                kw = dict(epoch=ep, info={"lr": {"v": rng.randint(1, 9)}, "s": rng.choice(["}", "a", "[tune-metric]: {"])},
+                          loss=rng.randint(1, 99) / 128)
+            steps.append(dict(op="split", kw=kw, cut=mode))
+        ep += 1
+        steps.append(dict(op="report", kw=dict(epoch=ep, loss=0.0)))
+        plans.append(steps)
+    return plans
+
+
+def _wait(path, timeout=120):
+    import time
+    t0 = time.time()
+    while not os.path.exists(path):
+        if time.time() - t0 > timeout:
+            return False
+        time.sleep(0.01)
+    return True
+
+
+def backend_stream(ctx, plans):
+    """Real LocalBackend, real subprocesses: fetch_status_results between the two halves of a report line and
+    after. Independent checker: per trial, the concatenation over polls of the delivered reports equals what
+    the script reported, in order, each once; a poll never raises."""
+    import logging
+    import shutil
+    from syne_tune.backend import LocalBackend
+    case = dict(kind="backend", plans=plans)
+    tmp = tempfile.mkdtemp(prefix="c18_backend_")
+    logging.getLogger("syne_tune").setLevel(logging.WARNING)
+    try:
+        script = os.path.join(tmp, "train_script.py")
+        open(script, "w").write(TRIAL_SCRIPT)
+        sink = io.StringIO()
+        with contextlib.redirect_stdout(sink), contextlib.redirect_stderr(sink):
+            backend = LocalBackend(entry_point=script, rotate_gpus=False)
+            backend.set_path(results_root=os.path.join(tmp, "results"))
+        trials = []
+        for t, steps in enumerate(plans):
+            sync = os.path.join(tmp, "sync%d" % t)
+            os.makedirs(sync)
+            planf = os.path.join(tmp, "plan%d.json" % t)
+            json.dump(steps, open(planf, "w"))
+            with contextlib.redirect_stdout(sink), contextlib.redirect_stderr(sink):
+                trial = backend.start_trial(config={"sync_dir": sync, "plan": planf})
+            trials.append((trial.trial_id, sync, steps))
+        delivered = {tid: [] for tid, _, _ in trials}
+        raised = []
+
+        def poll(tid, where):
+            try:
+                _, results = backend.fetch_status_results([tid])
+            except Exception as e:  # noqa
+                raised.append((tid, where, type(e).__name__, str(e)[:120]))
+                return
+            for rid, m in results:
+                delivered[rid].append(m)
+
+        for tid, sync, steps in trials:
+            for i, step in enumerate(steps):
+                if step["op"] != "split":
+                    continue
+                if not _wait(os.path.join(sync, "half_%d" % i)):
+                    ctx.notes.append("LocalBackend stream: trial script did not reach its marker (environment); stream skipped")
+                    return
+                poll(tid, step["cut"])            # the line of this report is only partly in std.out
+                ctx.h("backend_poll", "mid_line_" + step["cut"])
+                open(os.path.join(sync, "cont_%d" % i), "w").close()
+            if not _wait(os.path.join(sync, "all_written")):
+                ctx.notes.append("LocalBackend stream: trial script did not finish writing (environment); stream skipped")
+                return
+            poll(tid, "all_written")
+            ctx.h("backend_poll", "complete")
+        for tid, sync, steps in trials:
+            open(os.path.join(sync, "finish"), "w").close()
+        for tid, sync, steps in trials:
+            proc = backend.trial_subprocess.get(tid)
+            if proc is not None:
+                proc.wait(timeout=60)
+            poll(tid, "finished")
+        for tid, sync, steps in trials:
+            sent = [s["kw"] for s in steps if s["op"] != "noise"]
+            got = [{k: v for k, v in m.items() if k not in RESERVED} for m in delivered[tid]]
+            ctx.count(("backend", steps), nontrivial=True)
+            ctx.traces_validated += 1
+            if got != sent:
+                ctx.violation("property", "LocalBackend: trial reported %r but the polls delivered %r (std.out holds every line intact)"
+                              % (sent, got), case=case,
+                              signature=dict(component="LocalBackend", defect="report_lost_or_duplicated_across_polls"))
+        for tid, where, ename, msg in raised:
+            if where in CUT_MODES:
+                sig = dict(component="LocalBackend", defect="poll_during_partial_report_line_raises", exception=ename)
+            else:
+                sig = dict(component="LocalBackend", defect="poll_raises", exception=ename)
+            ctx.violation("property", "LocalBackend.fetch_status_results raised %s (%s) when polled at '%s': a report line whose "
+                          "first part (cut %s) was in std.out" % (ename, msg, where, where), case=case, signature=sig)
+        ctx.sample(dict(kind="local_backend_stream", plan_of_trial_0=plans[0],
+                        delivered_trial_0=[{k: v for k, v in m.items() if k not in RESERVED} for m in delivered[trials[0][0]]],
+                        polls_that_raised=raised))
+    finally:
+        shutil.rmtree(tmp, ignore_errors=True)
+
+
+def prefix_cases(ctx, rng, lines_cases, lines_meta):
+    """retrieve() on every prefix of a stream (a reader that sees the file while it grows): either exactly the
+    complete reports so far, or an exception caused by the cut line — never a wrong or missing dictionary"""
+    from syne_tune.report import Reporter
+    buf = io.StringIO()
+    sent = [dict(a=1), dict(b={"c": {"d": 2}}, s="}"), dict(t="[tune-metric]: {}", n=[1, {"x": 2}])]
+    ends = []
+    with contextlib.redirect_stdout(buf):
+        rep = Reporter(add_time=False)
+        for i, kw in enumerate(sent):
+            sys.stdout.write(["noise {", "", "x}\n"][i])
+            rep(**kw)
+            ends.append(buf.tell() - 1)   # position of the newline of this report
+    text = buf.getvalue()
+    for cut in range(len(text) + 1):
+        prefix = text[:cut]
+        lines = prefix.splitlines(True)
+        complete = [kw for kw, e in zip(sent, ends) if e <= cut]
+        got, groups, err = retrieve_with_groups(lines, passthrough=False)
+        try:
+            from syne_tune.report import retrieve
+            res = retrieve(lines)
+            res = [{k: v for k, v in d.items() if k not in RESERVED} for d in res]
+            ctx.h("prefix", "parsed")
+            if res != complete:
+                ctx.violation("property", "retrieve() on a prefix of the stream (cut at %d) returned %r, complete reports so far %r"
+                              % (cut, res, complete), case=dict(kind="prefix", cut=cut),
+                              signature=dict(component="retrieve", defect="prefix_parse_wrong"))
+        except ValueError:
+            ctx.h("prefix", "raises_on_cut_line")
+        ctx.count(("prefix", cut), nontrivial=cut not in ends)
+        if cut % 3 == 0 and got is not None and len(groups) == len(got):
+            lines_cases.append("(%s, %s, %s)" % (tx(prefix), txs(read_like_local_backend(prefix)), txs(groups)))
+            lines_meta.append(dict(kind="forged", text=prefix, lines=lines, groups=groups))
+
+
+# --------------------------------------------------------------------------
 def run(ctx, replay=None):
     from syne_tune.constants import ST_SAGEMAKER_METRIC_TAG
     ctx.rule = ("cases: scripts = sequences of 1..9 events, each either other output (pieces with braces, brackets, partial tags, "
@@ -623,6 +836,9 @@ def run(ctx, replay=None):
             forged = [replay["text"]]
         elif replay.get("kind") == "boundary":
             boundary_probe(ctx)
+            return
+        elif replay.get("kind") == "backend":
+            backend_stream(ctx, replay["plans"])
             return
     else:
         for p in sorted(glob.glob(os.path.join(VERIF, "corpus", "C18", "*.json"))):
@@ -648,6 +864,9 @@ def run(ctx, replay=None):
             lines_meta.append(dict(kind="forged", text=text, lines=lines, groups=groups))
     if forged:
         ctx.sample(dict(kind="forged_text", text=lines_meta[-1].get("text"), real_regex_groups=lines_meta[-1]["groups"]))
+    if not replay:
+        prefix_cases(ctx, rng, lines_cases, lines_meta)
+        backend_stream(ctx, gen_backend_plans(rng))
     for i in ctx.coq_bad_cases("lines", IMPORTS, PRELUDE, "chk_lines", lines_cases, shard=150):
         ctx.violation("correspondence", "model readlines/retrieve_model differs from readlines()+re.findall of the real retrieve",
                       case=lines_meta[i], failing_input=False, broken="correspondence chk_lines (model/Report.v retrieve_model)")
